@@ -392,6 +392,7 @@ func evLineLong(t *Tracer, lon0, lat0, alt0, lon1, lat1, alt1 float64, H, V int6
 	type item struct {
 		rel  []int64
 		prog int64
+		off  bool
 	}
 	var items []item
 	off := []any{}
@@ -402,18 +403,27 @@ func evLineLong(t *Tracer, lon0, lat0, alt0, lon1, lat1, alt1 float64, H, V int6
 			continue
 		}
 		rel := relArr(id, sv)
-		if !meets(id) {
-			off = append(off, rel)
-		}
-		items = append(items, item{rel, sg(dir[0])*rel[0] + sg(dir[1])*rel[1] + sg(dir[2])*rel[2]})
+		items = append(items, item{rel, sg(dir[0])*rel[0] + sg(dir[1])*rel[1] + sg(dir[2])*rel[2], !meets(id)})
 	}
-	sort.SliceStable(items, func(i, j int) bool { return items[i].prog < items[j].prog })
+	// a total order (progress, then coordinates): the recorded event does not depend on the order of the result
+	sort.Slice(items, func(i, j int) bool {
+		a, b := items[i], items[j]
+		if a.prog != b.prog {
+			return a.prog < b.prog
+		}
+		for k := 0; k < 3; k++ {
+			if a.rel[k] != b.rel[k] {
+				return a.rel[k] < b.rel[k]
+			}
+		}
+		return false
+	})
 	out := make([]any, len(items))
 	for i, it := range items {
 		out[i] = it.rel
-	}
-	if len(off) > 20 {
-		off = off[:20]
+		if it.off && len(off) < 20 {
+			off = append(off, it.rel)
+		}
 	}
 	e.R, e.A["off"] = out, off
 	t.Emit(e, true)
